@@ -3,7 +3,8 @@ spec/BtcCoins.tla (relational postcondition + set transition + PropC26), spec/Tr
 (hook native/service/cross_chain_manager/btc/verif_export.go, build tag verif).
   1. P-MC      : PropC26 (unspent/spent disjoint, no outpoint selected twice, value conserved, built transaction balances)
                  on the relational model over small UTXO multisets, exhaustive.
-  2. P-VALIDATE: random scenarios on the REAL code: a UTXO set (0..40 outpoints, values with ties, P2SH/P2WSH mix) in real
+  2. P-VALIDATE: random scenarios on the REAL code: a UTXO set (0..40 outpoints = (txid, index) pairs, about half of them
+                 sharing their txid with another one; values with ties, P2SH/P2WSH mix) in real
                  contract storage, then withdrawals through chooseUtxos and makeBtcTx, deposits, parameter changes and
                  side-effect-free CoinSelector probes (Select / SimpleBnbSearch / SortedSearch).  Every call is logged with
                  inputs and result; TLC judges each with the relation of BtcCoins (selected distinct and unspent, reported
@@ -104,6 +105,10 @@ def run(ctx):
     ctx.cov["by_via"] = {v: sum(1 for e in w if e["via"] == v) for v in ("choose", "maketx", "select")}
     ctx.cov["selections_of_3_or_more"] = sum(1 for e in w if len(e["sel"]) >= 3)
     oks = [e for e in w if e["res"] == "ok"]
+    # selections that take some but not all unspent outputs of one bitcoin transaction (outpoints are judged as full
+    # (txid, index) pairs: the siblings must stay unspent)
+    ctx.cov["selections_splitting_a_transaction"] = sum(
+        1 for e in oks if e["via"] != "select" and {o[0] for o in e["sel"]} & {o[0] for o in e["utxo2"]})
     if oks:
         ctx.sample({"withdrawal": _strip(oks[len(oks) // 2])})
         ctx.sample({"withdrawal": _strip(oks[0])})
